@@ -16,6 +16,46 @@ use std::panic::{catch_unwind, AssertUnwindSafe};
 
 mod alloc_count;
 
+thread_local! {
+    /// When set, trace lines of this thread are collected instead of printed (thread modes).
+    static SINK: std::cell::RefCell<Option<Vec<String>>> = const { std::cell::RefCell::new(None) };
+}
+
+fn emit(s: String) {
+    let printed = SINK.with(|k| {
+        if let Some(v) = k.borrow_mut().as_mut() {
+            v.push(s.clone());
+            true
+        } else {
+            false
+        }
+    });
+    if !printed {
+        std::println!("{}", s);
+    }
+}
+
+macro_rules! println {
+    ($($a:tt)*) => { crate::emit(format!($($a)*)) };
+}
+
+/// Run `f` on a freshly spawned thread (the resampler migrates there for this call) and bring
+/// its trace lines back.
+fn on_other_thread<F: FnOnce() + Send>(f: F) {
+    let lines = std::thread::scope(|sc| {
+        sc.spawn(|| {
+            SINK.with(|k| *k.borrow_mut() = Some(Vec::new()));
+            f();
+            SINK.with(|k| k.borrow_mut().take().unwrap_or_default())
+        })
+        .join()
+        .unwrap()
+    });
+    for l in lines {
+        emit(l);
+    }
+}
+
 trait Smp: Sample + std::fmt::Debug + std::str::FromStr + 'static {
     const F32: bool;
     fn from_hex(h: &str) -> Self;
@@ -683,8 +723,11 @@ fn do_op<T: Smp>(cx: &mut Ctx<T>, cmd: &str, line: &str, m: &HashMap<String, Str
     writeln!(cx.hist, "{}", line).unwrap();
     cx.hist.flush().unwrap();
     let r = cx.r.as_mut().unwrap();
-    hooks::fft::unit_log_start();
     let want_allocs = m.contains_key("allocs");
+    if !want_allocs {
+        // the recorder itself allocates; allocation-counted calls run without it (and without the model)
+        hooks::fft::unit_log_start();
+    }
     let succeeded = std::cell::Cell::new(false);
     let outcome = catch_unwind(AssertUnwindSafe(|| -> Result<(), ()> {
         match cmd {
@@ -973,7 +1016,7 @@ fn do_fn<T: Smp>(m: &HashMap<String, String>) {
     flush();
 }
 
-fn run<T: Smp>(lines: &[String], hist: std::fs::File) {
+fn run<T: Smp>(lines: &[String], hist: std::fs::File, migrate: bool, tid: usize) {
     let mut cx = Ctx::<T> {
         r: None,
         hist,
@@ -997,11 +1040,38 @@ fn run<T: Smp>(lines: &[String], hist: std::fs::File) {
                     cx.dead = true;
                 }
             }
+            "WARM" => {
+                // only=odd / only=even: in thread mode, only those threads build the extra resampler
+                if let Some(o) = m.get("only") {
+                    if (o == "odd") != (tid % 2 == 1) {
+                        continue;
+                    }
+                }
+                // another resampler is built, used once and dropped on this thread; not part of the history
+                let devnull = std::fs::File::create("/dev/null").unwrap();
+                let mut other = Ctx::<T> { r: None, hist: devnull, dead: false, fed: Vec::new(), pending: Vec::new() };
+                let saved = SINK.with(|k| k.borrow_mut().replace(Vec::new()));
+                let _ = catch_unwind(AssertUnwindSafe(|| {
+                    do_new(&mut other, line, &m);
+                    if other.r.is_some() {
+                        let l2 = "PIB mask=- inlen=next outlen=max sig=rand:1";
+                        do_op(&mut other, "PIB", l2, &kv(l2));
+                    }
+                }));
+                SINK.with(|k| *k.borrow_mut() = saved);
+            }
             "FN" => {
                 writeln!(cx.hist, "{}", line).unwrap();
                 do_fn::<T>(&m)
             }
-            c => do_op(&mut cx, c, line, &m),
+            c => {
+                if migrate {
+                    let cxr = &mut cx;
+                    on_other_thread(move || do_op(cxr, c, line, &m));
+                } else {
+                    do_op(&mut cx, c, line, &m)
+                }
+            }
         }
         flush();
         cx.hist.flush().unwrap();
@@ -1016,12 +1086,63 @@ fn main() {
     let text = std::fs::read_to_string(&args[1]).unwrap();
     let lines: Vec<String> = text.lines().map(|s| s.to_string()).collect();
     let hist = std::fs::File::create(&args[2]).unwrap();
-    let f32mode = lines
-        .iter()
-        .any(|l| l.trim() == "T ty=f32");
-    if f32mode {
-        run::<f32>(&lines, hist);
-    } else {
-        run::<f64>(&lines, hist);
+    let f32mode = lines.iter().any(|l| l.trim() == "T ty=f32");
+    let mut threads = 0usize;
+    let mut migrate = false;
+    let mut i = 3;
+    while i < args.len() {
+        if args[i] == "--threads" {
+            threads = args[i + 1].parse().unwrap();
+            i += 2;
+        } else if args[i] == "--migrate" {
+            migrate = true;
+            i += 1;
+        } else {
+            i += 1;
+        }
     }
+    if threads <= 1 {
+        if f32mode {
+            run::<f32>(&lines, hist, migrate, 0);
+        } else {
+            run::<f64>(&lines, hist, migrate, 0);
+        }
+        return;
+    }
+    // several instances of the same history, concurrently, one per thread
+    drop(hist);
+    let hist_path = args[2].clone();
+    let results: Vec<Vec<String>> = std::thread::scope(|sc| {
+        let mut hs = Vec::new();
+        for t in 0..threads {
+            let lines = &lines;
+            let hp = if t == 0 { hist_path.clone() } else { format!("{}.t{}", hist_path, t) };
+            hs.push(sc.spawn(move || {
+                SINK.with(|k| *k.borrow_mut() = Some(Vec::new()));
+                let h = std::fs::File::create(&hp).unwrap();
+                if f32mode {
+                    run::<f32>(lines, h, migrate && t % 2 == 1, t);
+                } else {
+                    run::<f64>(lines, h, migrate && t % 2 == 1, t);
+                }
+                if t != 0 {
+                    let _ = std::fs::remove_file(&hp);
+                }
+                SINK.with(|k| k.borrow_mut().take().unwrap_or_default())
+            }));
+        }
+        hs.into_iter().map(|h| h.join().unwrap()).collect()
+    });
+    for l in results[0].iter() {
+        std::println!("{}", l);
+    }
+    let mut verdict = "equal".to_string();
+    for (t, r) in results.iter().enumerate().skip(1) {
+        if r != &results[0] {
+            let j = r.iter().zip(results[0].iter()).position(|(a, b)| a != b).unwrap_or(r.len().min(results[0].len()));
+            verdict = format!("MISMATCH thread {} line {}", t, j);
+            break;
+        }
+    }
+    std::println!("THREADS {} {}", threads, verdict);
 }
